@@ -70,6 +70,7 @@ type caseSpec struct {
 	Cause   string `json:"cause"`
 	Moment  int    `json:"moment"`
 	Conc    string `json:"conc,omitempty"`    // concurrency scenario (conc.go): "<order>/<context arrangement>"
+	Env     string `json:"env,omitempty"`     // shared-cache environment (envdim.go): "<cache>/<position>/<action of the OFF runtime>"
 	Hist    string `json:"hist,omitempty"`    // call history on one api.Function (hist.go)
 	Prewarm bool   `json:"prewarm,omitempty"` // same binaries compiled first by a runtime WITHOUT close-on-context-done sharing the compilation cache
 }
@@ -85,6 +86,9 @@ func (c caseSpec) String() string {
 	}
 	if c.Conc != "" {
 		s += "/concurrent:" + c.Conc
+	}
+	if c.Env != "" {
+		s += "/shared-cache:" + c.Env
 	}
 	if c.Hist != "" {
 		s = fmt.Sprintf("%s/%s/history[%s]", c.Shape, c.Engine, c.Hist)
@@ -222,6 +226,12 @@ type caseRun struct {
 	ticks   []uint32
 	armed   time.Duration
 	wd      *time.Timer
+	// atFirstTick, if set, runs once inside the guest's first tick (the call under test is in flight)
+	atFirstTick func()
+}
+
+func newCaseRun(idx int, spec caseSpec, sh *shape) *caseRun {
+	return &caseRun{spec: spec, sh: sh, idx: idx, t0: time.Now(), cancel: func() {}}
 }
 
 func marker(format string, a ...any) { fmt.Fprintf(os.Stderr, "C07 "+format+"\n", a...) }
@@ -319,6 +329,10 @@ func (r *caseRun) tick(ctx context.Context, mod api.Module, stack []uint64) {
 	if r.target == nil {
 		r.target = mod // start shapes: the instantiating module is only reachable from here
 	}
+	if f := r.atFirstTick; f != nil {
+		r.atFirstTick = nil
+		f()
+	}
 	if r.fired || r.tickAt() < 0 || int(i) != r.tickAt() {
 		return
 	}
@@ -355,6 +369,9 @@ func runCase(idx int, spec caseSpec, sh *shape) string {
 	}
 	if spec.Hist != "" {
 		return runHistCase(idx, spec, sh)
+	}
+	if spec.Env != "" {
+		return runEnvCase(idx, spec, sh)
 	}
 	bg := context.Background()
 	r := &caseRun{spec: spec, sh: sh, idx: idx, t0: time.Now()} // markers carry the time since the case started
